@@ -2,6 +2,8 @@
 
 package certmagic
 
+import "time"
+
 // Verification hooks (build tag "verif" only) for the bundle checks (C06/C07):
 // read-only snapshots of unexported state. No existing code is changed.
 
@@ -18,4 +20,12 @@ func VerifBundleCertRevoked(cert Certificate) (revoked bool, reason int) {
 		return false, 0
 	}
 	return cert.ocsp.Status == 1, cert.ocsp.RevocationReason // ocsp.Revoked == 1
+}
+
+// VerifBundleSetRetryIntervals replaces the back-off table of doWithRetry (a package variable) and
+// returns a function that puts the original back. Not safe while retrying calls are in flight.
+func VerifBundleSetRetryIntervals(iv []time.Duration) (restore func()) {
+	old := retryIntervals
+	retryIntervals = append([]time.Duration(nil), iv...)
+	return func() { retryIntervals = old }
 }
